@@ -52,6 +52,8 @@ class C10(Check):
             op = rng.choice(["set", "set", "get", "pop", "popd", "del", "iter", "in", "hget", "hset", "pread"])
             k = rng.choice(keys)
             case["ops"].append([op, k, [rand_val(rng, f) for f in case["value"]], rng.randrange(8), rng.randint(-5, 5)])
+        # a third of the Dicts are declared lru=True (another map type in the kernel, the same buffers)
+        case["lru"] = len(case["ops"]) % 3 == 0
         return case
 
     def gen_cases(self):
@@ -95,7 +97,7 @@ class C10(Check):
                     Value = type("Value", (Structure,), {f"v{i}": Member(f) for i, f in enumerate(case["value"])})
                 hm, pc = HashMap(), PerCPUArrayMap()
                 ns = {"table0": Dict(key=Key, value=VBase, size=8)} if k else {}
-                ns["table"] = Dict(key=Key, value=Value, size=8)
+                ns["table"] = Dict(key=Key, value=Value, size=8, lru=True) if case.get("lru") else Dict(key=Key, value=Value, size=8)
                 if case["hashvars"]:
                     ns["hm"] = hm
                     for i, (f, d) in enumerate(case["hashvars"]):
@@ -223,7 +225,7 @@ class C10(Check):
 
     def rule(self):
         return ("programs declaring 0-4 hash-map variables (all formats incl. x, with defaults; 6%: 255, 256, 257 or 300 of them), 0-3 per-CPU array variables on a machine with 1/2/4/16 online CPUs "
-                "whose mask of possible CPUs is this machine's or one of 0, 0-7, 0-3,8-11, 0,2-3, 0,2,4,6, 0-1,4-5,8, 0-2,4 (served for /sys/devices/system/cpu/possible), a Dict with 1-3 key and 1-4 value members of all sizes (30%: the value structure extends a base structure that an earlier Dict uses by itself); load() and 3-12 API operations: Dict set / get / in / pop / pop "
+                "whose mask of possible CPUs is this machine's or one of 0, 0-7, 0-3,8-11, 0,2-3, 0,2,4,6, 0-1,4-5,8, 0-2,4 (served for /sys/devices/system/cpu/possible), a Dict (a third of them lru=True) with 1-3 key and 1-4 value members of all sizes (30%: the value structure extends a base structure that an earlier Dict uses by itself); load() and 3-12 API operations: Dict set / get / in / pop / pop "
                 "with default / del / iteration, hash variable get / set, per-CPU read and indexing")
 
     def distribution(self, cases, observed):
